@@ -11,6 +11,21 @@ pub fn generate(tier: &str, rng: &mut Rng) -> Vec<String> {
                   evs: vec!["i010203".into(), "p".into(), "i".into(), "i09".into()], items: vec![vec![1, 2, 3], vec![], vec![9]], extra_polls: 1 }.line(),
     );
     out.push("dec req none none 8192 8 Z 0 EV d000000 d0003010203 p d00 d00000000 d000000000109".to_string());
+    // rev1 §1 witnesses: BufferSettings::new(0, _) with any compression used to divide by zero in
+    // `compress` / `decompress` (fixed: "a zero buffer_size no longer divides by zero when (de)compressing")
+    for e in [tonic::codec::CompressionEncoding::Gzip, tonic::codec::CompressionEncoding::Deflate, tonic::codec::CompressionEncoding::Zstd] {
+        for server in [true, false] {
+            out.push(
+                EncCase { server, comp: Some(e), disable: false, yield_thr: 32768, buf_size: 0, max: None,
+                          evs: vec!["i010203".into()], items: vec![vec![1, 2, 3]], extra_polls: 1 }.line(),
+            );
+        }
+        let stream = frame(1, &oracle_compress(e, &[10, 11, 12]));
+        let evs = vec![format!("d{}", hexr(&stream))];
+        out.push(DecCase { dir: "req".into(), enc: Some(e), max: None, buf_size: 0, evs, stream, extra_polls: 2 }.line());
+    }
+    out.push("enc s none i 32768 0 none 5 Z 0 EV i010203".to_string());
+    out.push("dec req none none 0 6 Z 0 EV d0000000003010203".to_string());
     let n = if thorough { 30000 } else { 2500 };
     for _ in 0..n {
         out.push(gen_enc_case(rng, false, false).line());
@@ -38,7 +53,7 @@ pub fn generate(tier: &str, rng: &mut Rng) -> Vec<String> {
         let small = vec![1u8, 2, 3];
         let comp = ENCS[i % 4];
         let c = EncCase { server: i % 2 == 0, comp, disable: false, yield_thr: 32 * 1024, buf_size: 8 * 1024, max: None,
-                  evs: vec![format!("i{}", &hex(&small)[1..]), format!("i{}", &hex(&m)[1..]), "p".into(), format!("i{}", &hex(&small)[1..])],
+                  evs: vec![format!("i{}", hexr(&small)), format!("i{}", hexr(&m)), "p".into(), format!("i{}", hexr(&small))],
                   items: vec![small.clone(), m.clone(), small.clone()], extra_polls: 1 };
         out.push(c.line());
         let mut bytes = frame(0, &small);
@@ -48,6 +63,61 @@ pub fn generate(tier: &str, rng: &mut Rng) -> Vec<String> {
         let evs = events_from_chunks(rng, chunks, true);
         out.push(DecCase { dir: "req".into(), enc: None, max: None, buf_size: 8192, evs, stream: bytes, extra_polls: 1 }.line());
     }
+    // rev1 S5: message lengths whose second / first length byte is non-zero (2^16±, 2^24±; an accepted
+    // length with a non-zero top byte needs a decoding limit above 16 MiB), between two small messages
+    // (every 16 MiB case costs the Lean driver a few seconds: quick has one on each side, thorough all)
+    let m24: usize = 1 << 24;
+    let (big_enc, big_dec): (Vec<usize>, Vec<usize>) = if thorough {
+        (vec![65535, 65536, 65537, m24 - 1, m24, m24 + 1, m24 + 65536, 3 << 23], vec![65535, 65536, 65537, m24 - 1, m24, m24 + 1, m24 + 65536])
+    } else {
+        (vec![65535, 65536, m24 + 1], vec![65535, 65536, m24])
+    };
+    for (i, len) in big_enc.iter().enumerate() {
+        let m = vec![7u8; *len];
+        let small = vec![1u8, 2, 3];
+        out.push(
+            EncCase { server: i % 2 == 0, comp: None, disable: false, yield_thr: 32 * 1024, buf_size: *rng.pick(&BUF_SIZES), max: None,
+                      evs: vec![format!("i{}", hexr(&small)), format!("i{}", hexr(&m)), "p".into(), format!("i{}", hexr(&small))],
+                      items: vec![], extra_polls: 1 }.line(),
+        );
+    }
+    for (i, len) in big_dec.iter().enumerate() {
+        let m = vec![7u8; *len];
+        let small = vec![1u8, 2, 3];
+        let mut bytes = frame(0, &small);
+        let start2 = bytes.len();
+        bytes.extend(frame(0, &m));
+        let start3 = bytes.len();
+        bytes.extend(frame(0, &small));
+        // (quick: a single cut inside the big payload — every further chunk makes the Lean model copy its buffer once more)
+        let chunks = if thorough || *len < m24 {
+            chunkings(rng, &bytes, &[0, start2, start3], 3)
+        } else {
+            let cut = start2 + 5 + rng.below(*len as u64) as usize;
+            vec![bytes[..cut].to_vec(), bytes[cut..].to_vec()]
+        };
+        let evs = events_from_chunks(rng, chunks, true);
+        out.push(DecCase { dir: if i % 2 == 0 { "req".into() } else { "resp200".into() }, enc: None, max: Some(1 << 25), buf_size: *rng.pick(&BUF_SIZES), evs, stream: bytes, extra_polls: 1 }.line());
+    }
+    // compressed messages of more than 64 KiB raw (the decompression buffer has to grow several times)
+    let raw_sizes: Vec<usize> = if thorough { vec![65537, 70000, 100000, 200000, 1 << 20] } else { vec![70000] };
+    for len in raw_sizes {
+        for e in [tonic::codec::CompressionEncoding::Gzip, tonic::codec::CompressionEncoding::Deflate, tonic::codec::CompressionEncoding::Zstd] {
+            let m: Vec<u8> = (0..len).map(|k| ((k * k / 7) % 251) as u8).collect();
+            let small = vec![9u8];
+            out.push(
+                EncCase { server: len % 2 == 0, comp: Some(e), disable: false, yield_thr: 32 * 1024, buf_size: *rng.pick(&BUF_SIZES), max: None,
+                          evs: vec![format!("i{}", hexr(&small)), format!("i{}", hexr(&m))],
+                          items: vec![small.clone(), m.clone()], extra_polls: 1 }.line(),
+            );
+            let mut bytes = frame(1, &oracle_compress(e, &small));
+            let start2 = bytes.len();
+            bytes.extend(frame(1, &oracle_compress(e, &m)));
+            let chunks = chunkings(rng, &bytes, &[0, start2], 3);
+            let evs = events_from_chunks(rng, chunks, true);
+            out.push(DecCase { dir: "req".into(), enc: Some(e), max: None, buf_size: *rng.pick(&BUF_SIZES), evs, stream: bytes, extra_polls: 1 }.line());
+        }
+    }
     // the same through the real ProstCodec (messages are serialized google.protobuf.Any values)
     for _ in 0..n / 3 {
         let mut c = gen_enc_case(rng, false, false);
@@ -55,7 +125,7 @@ pub fn generate(tier: &str, rng: &mut Rng) -> Vec<String> {
         for ev in c.evs.iter_mut() {
             if ev.starts_with('i') {
                 let m = gen_any_msg(rng, 200);
-                *ev = format!("i{}", &hex(&m)[1..]);
+                *ev = format!("i{}", hexr(&m));
                 items.push(m);
             }
         }
@@ -73,7 +143,27 @@ pub fn generate(tier: &str, rng: &mut Rng) -> Vec<String> {
             evs.push("t0".into());
         }
         let dir = if rng.chance(1, 2) { "req" } else { "resp200" };
-        out.push(format!("p{}", DecCase { dir: dir.into(), enc, max: None, buf_size: *rng.pick(&[1usize, 16, 8192]), evs, stream: bytes, extra_polls: 2 }.line()));
+        out.push(DecCase { dir: dir.into(), enc, max: None, buf_size: *rng.pick(&BUF_SIZES), evs, stream: bytes, extra_polls: 2 }.pline());
+    }
+    // valid protobuf no encoder would write (unknown fields of every wire type, groups, repeated and
+    // reordered fields, non-minimal varints): decoded to the message prost itself reads from it
+    for _ in 0..n / 6 {
+        let enc = *rng.pick(&ENCS);
+        let k = 1 + rng.below(3) as usize;
+        let mut bytes = Vec::new();
+        let mut starts = Vec::new();
+        for _ in 0..k {
+            let m = if rng.chance(2, 3) { gen_pb_unusual_valid(rng) } else { gen_any_msg(rng, 30) };
+            starts.push(bytes.len());
+            match enc {
+                Some(e) if rng.chance(1, 2) => bytes.extend(frame(1, &oracle_compress(e, &m))),
+                _ => bytes.extend(frame(0, &m)),
+            }
+        }
+        let style = rng.below(4);
+        let chunks = chunkings(rng, &bytes, &starts, style);
+        let evs = events_from_chunks(rng, chunks, true);
+        out.push(DecCase { dir: "req".into(), enc, max: None, buf_size: *rng.pick(&BUF_SIZES), evs, stream: bytes, extra_polls: 2 }.pline());
     }
     if thorough {
         // small-scope exhaustive: every chunking (all 2^(n-1) cut sets) of short streams
@@ -88,11 +178,11 @@ pub fn generate(tier: &str, rng: &mut Rng) -> Vec<String> {
                 let mut prev = 0;
                 for i in 1..n {
                     if mask & (1 << (i - 1)) != 0 {
-                        evs.push(format!("d{}", &hex(&bytes[prev..i])[1..]));
+                        evs.push(format!("d{}", hexr(&bytes[prev..i])));
                         prev = i;
                     }
                 }
-                evs.push(format!("d{}", &hex(&bytes[prev..])[1..]));
+                evs.push(format!("d{}", hexr(&bytes[prev..])));
                 out.push(DecCase { dir: "req".into(), enc: None, max: None, buf_size: 16, evs, stream: bytes.clone(), extra_polls: 1 }.line());
             }
         }
